@@ -27,6 +27,12 @@ pub struct StoreCase {
     /// the universe collide in every hash table
     #[serde(default)]
     pub coarse: bool,
+    /// > 0: before the generated operations every label of the universe is created and the labels
+    /// 1..=hub_prefix each attack, and are attacked by, label 0 - adjacency lists of that length (64 and
+    /// more) exist from the start, and the generated operations (biased to low labels) then remove and
+    /// re-add entries in their middle
+    #[serde(default)]
+    pub hub_prefix: u8,
     pub initial: Vec<u8>,
     pub ops: Vec<StoreOp>,
 }
@@ -266,7 +272,19 @@ impl Store {
             f
         })?;
         let mut interesting_removal_at: Option<usize> = None;
-        for (k, op) in case.ops.iter().enumerate() {
+        let mut all_ops: Vec<StoreOp> = vec![];
+        if case.hub_prefix > 0 {
+            for l in 0..case.universe {
+                all_ops.push(StoreOp::NewArg(l));
+            }
+            for l in 1..=case.hub_prefix.min(case.universe.saturating_sub(1)) {
+                all_ops.push(StoreOp::NewAtt(l, 0));
+                all_ops.push(StoreOp::NewAtt(0, l));
+            }
+            rec.class(&format!("hub-with-{}+-attackers-from-the-start", (case.hub_prefix / 32) * 32));
+        }
+        all_ops.extend(case.ops.iter().cloned());
+        for (k, op) in all_ops.iter().enumerate() {
             rec.eval();
             if let StoreOp::RemArg(l) = op {
                 if m.live.contains_key(l) {
@@ -329,19 +347,26 @@ impl Prop for Store {
     fn strategy(&self, tier: Tier) -> BoxedStrategy<StoreCase> {
         let maxlen = tier.pick(200usize, 600usize);
         // small universes (dense interaction) and large ones (long adjacency lists, many ids)
-        (prop_oneof![16 => 4u8..=8, 3 => 20u8..=48, 1 => 60u8..=120], prop_oneof![3 => Just((false, false)), 3 => Just((true, false)), 2 => Just((false, true))])
+        (prop_oneof![16 => 4u8..=8, 3 => 20u8..=48, 2 => 60u8..=120], prop_oneof![3 => Just((false, false)), 3 => Just((true, false)), 2 => Just((false, true))])
             .prop_flat_map(move |(universe, (string_labels, coarse))| {
                 let init_max = if universe > 8 { universe as usize } else { 6 };
                 let len = if universe > 8 { maxlen * 2 } else { maxlen };
-                (vec(0..universe, 0..=init_max), vec(store_op(universe), 0..=len)).prop_map(move |(initial, ops)| StoreCase {
+                // one large-universe case in three starts with a hub of 30..universe-1 attackers
+                let hub = if universe >= 40 { prop_oneof![2 => Just(0u8), 1 => 30u8..universe].boxed() } else { Just(0u8).boxed() };
+                (vec(0..universe, 0..=init_max), vec(store_op(universe), 0..=len), hub).prop_map(move |(initial, ops, hub_prefix)| StoreCase {
                     universe,
                     string_labels,
                     coarse,
+                    hub_prefix,
                     initial,
                     ops,
                 })
             })
             .boxed()
+    }
+    fn max_shrink_iters(&self) -> u32 {
+        // histories over 120 labels with a hub prefix take a second per shrink step
+        1_500
     }
     fn n_cases(&self, tier: Tier) -> u32 {
         tier.pick(200_000, 1_500_000)
@@ -373,7 +398,7 @@ impl Prop for Store {
             frontier = next;
         }
         for (i, ops) in frontier.into_iter().enumerate() {
-            out.push(StoreCase { universe: 2, string_labels: i % 3 == 0, coarse: i % 3 == 1, initial: vec![], ops });
+            out.push(StoreCase { universe: 2, string_labels: i % 3 == 0, coarse: i % 3 == 1, hub_prefix: 0, initial: vec![], ops });
         }
         (out, format!("all {}-step histories over two labels (12 operations per step), every prefix compared", maxlen))
     }
